@@ -190,7 +190,16 @@ func c04Register[A, J, E any, PA c04Aff[A, J, E], PJ c04Jac[A, J, E], PE c04Fr[E
 			_, err = PJ(&j).Fold(points, t, cfg)
 			PA(&res).FromJacobian(&j)
 		default:
-			return "bad-op"
+			// "inner:<c>": _innerMsm with the window c (verif-tagged overlay shim, c04_shim.go)
+			f, ok := c04InnerFns[curve+"/"+grp]
+			if !ok || !strings.HasPrefix(api, "inner:") || nbTasks < 1 {
+				return "bad-op"
+			}
+			r, ok := f(points, scalars, uint64(c04ParseInt(api[6:])), nbTasks).(A)
+			if !ok {
+				return "bad-op"
+			}
+			res = r
 		}
 		if err != nil {
 			return c04Err(err)
@@ -740,6 +749,8 @@ func genC04(g *gen) {
 	}
 	// (8) cancellation classes, (9) batch-affine scheduler orderings (c04x.go)
 	genC04X(g)
+	// (10) every branch of the batch-affine processor, every group, every window c ≥ 10 (c04q.go)
+	genC04Q(g)
 }
 
 // ---------------------------------------------------------------- (7) chunk statistics × window bands × semaphore
